@@ -912,7 +912,7 @@ def run(ctx):
     sqlev = SqlEval()
     try:
         rng = ctx.rng
-        nds = 100 if ctx.tier == 'quick' else 250
+        nds = 100 if ctx.tier == 'quick' else 150
         nq = 70
         for i in range(nds):
             run_dataset(ctx, env, sqlev, rng, nq, sample=(i % 11 == 0))
@@ -924,7 +924,7 @@ def run(ctx):
     if ctx.counters.get('py_mode_used_json1_function') or ctx.counters.get('json1_mode_used_fallback_function'):
         ctx.inconclusive.append('json1_available flag was not honoured by the generated SQL; the two modes are not distinct')
     # floors are per process (each shard of the thorough tier evaluates them on its own counters)
-    k = 1 if ctx.tier == 'quick' else 2
+    k = 1 if ctx.tier == 'quick' else 1.4
     ctx.floor('executed.json1', 2500 * k)
     ctx.floor('executed.py', 2500 * k)
     ctx.floor('rows.agree', 25000 * k)
